@@ -30,7 +30,7 @@ def mahalanobis(X, Y, cov_inv, cell, squared):
     d = displacements(X, Y)
     if cell is not None:
         d = minimum_image(d, cell)
-    q = np.sum(d * np.transpose(cov_inv @ d.T, (0, 2, 1)), axis=-1).reshape((cov_inv.shape[0], X.shape[0], Y.shape[0]))
+    q = np.array([np.sum(d * (S @ d.T).T, axis=-1) for S in cov_inv]).reshape((cov_inv.shape[0], X.shape[0], Y.shape[0]))
     if not squared:
         q = q**0.5
     return q
